@@ -39,7 +39,7 @@ def builtin_policies_json():
 
 
 # ------------------------------------------------------------------ C03 oracle
-def text_grant(policies, name, user, groups, owner, otype, op):
+def text_grant(policies, name, user, groups, owner, otype, op, preset_fallback=True):
     """The property's sentence, read literally (independent of engine.py):
     'allow all' to anyone, 'allow owner' only to the creator, anything else - incl. a
     missing policy / object-type / operation / group entry - to nobody; with group
@@ -64,7 +64,7 @@ def text_grant(policies, name, user, groups, owner, otype, op):
     if groups is None:
         return sec_grants(b.get("preset"))
     if not b.get("groups"):
-        return sec_grants(b.get("preset")) and len(groups) > 0
+        return preset_fallback and sec_grants(b.get("preset")) and len(groups) > 0
     gmap = dict((g, t) for g, t in b["groups"])
     return any(sec_grants(gmap.get(g)) for g in groups)
 
@@ -177,39 +177,64 @@ def mon_c04(h, outs):
             if u in a and a[u]["state"] != ob["state"] and u not in changers:
                 fails.append(("c04:state-changed-by-other-op", "object %s changed state %s->%s without Activate/Revoke"
                               % (u, ob["state"], a[u]["state"]), i))
-        # exact transitions + guards, single-item requests (state before is exactly `before`)
-        if len(items) != 1 or not ok_ops:
-            continue
-        it, r = ok_ops[0]
-        op = it["op"]
-        uid = it.get("uid")
-        ob = b.get(uid) if uid else None
-        if op == "activate" and ob is not None:
-            if not (ob["state"] == 1 and a.get(uid, {}).get("state") == 2):
-                fails.append(("c04:bad-activate", "Activate %s: %s -> %s" % (uid, ob["state"], a.get(uid, {}).get("state")), i))
-        if op == "revoke" and ob is not None:
-            ns = a.get(uid, {}).get("state")
-            code = it.get("code")
-            good = (code == 2 and ns == 4) or (code != 2 and ob["state"] == 2 and ns == 3)
-            if not good:
-                fails.append(("c04:bad-revoke", "Revoke(code %s) %s: %s -> %s" % (code, uid, ob["state"], ns), i))
-        if op == "destroy" and ob is not None and ob["state"] == 2:
-            fails.append(("c04:destroyed-active", "Destroy succeeded on Active object %s" % uid, i))
-        need = {"encrypt": (2, 0x4), "decrypt": (2, 0x8), "sign": (4, 0x1), "signatureVerify": (3, 0x2), "mac": (None, 0x80)}
-        if op in need and ob is not None:
-            kind, bit = need[op]
-            if ob["state"] != 2 or (kind is not None and ob["otype"] != kind) or not ((ob["mask"] or 0) & bit):
-                fails.append(("c04:crypto-without-guard:%s" % op,
-                              "%s succeeded with key %s state=%s type=%s mask=%s" % (op, uid, ob["state"], ob["otype"], ob["mask"]), i))
-        if op == "get" and it.get("wrap") and (r.get("data") or {}).get("wrapped"):
-            k = b.get(it["wrap"].get("enckey"))
-            if k is None or k["state"] != 2 or k["otype"] != 2 or not ((k["mask"] or 0) & 0x10):
-                fails.append(("c04:wrap-without-guard", "Get wrapped with key %s: %s" % (it["wrap"].get("enckey"), k and (k["state"], k["otype"], k["mask"])), i))
-        if op == "deriveKey":
-            for u in it.get("uids", []):
-                k = b.get(u)
-                if k is None or not ((k["mask"] or 0) & 0x200):
-                    fails.append(("c04:derive-without-mask", "DeriveKey used %s without the Derive Key bit" % u, i))
+        # exact transitions + guards.  `shadow` tracks the state of every object through the batch
+        # (states are known exactly from the reported outcomes); objects created inside the batch have
+        # an unknown mask and are skipped by the mask checks.
+        shadow = {u: dict(ob) for u, ob in b.items()}
+        for k, (it, r) in enumerate(zip(items, o["results"])):
+            op = it["op"]
+            d = r.get("data") or {}
+            uid = it.get("uid") or batch_placeholder(items, o["results"], k)
+            ob = shadow.get(uid) if uid else None
+            if r.get("status") != "ok":
+                continue
+            if op == "create":
+                shadow[d.get("uid")] = {"state": 1, "otype": 2, "mask": None, "fresh": True}
+            elif op == "register":
+                shadow[d.get("uid")] = {"state": None if (it.get("obj") or {}).get("otype") == 8 else 1,
+                                        "otype": (it.get("obj") or {}).get("otype"), "mask": None, "fresh": True}
+            elif op == "deriveKey":
+                shadow[d.get("uid")] = {"state": 1, "otype": it.get("otype"), "mask": None, "fresh": True}
+            elif op == "createKeyPair":
+                shadow[d.get("pub")] = {"state": 1, "otype": 3, "mask": None, "fresh": True}
+                shadow[d.get("priv")] = {"state": 1, "otype": 4, "mask": None, "fresh": True}
+            if ob is None and op not in ("deriveKey", "get"):
+                continue
+            if op == "activate":
+                if ob["state"] != 1:
+                    fails.append(("c04:bad-activate", "Activate %s succeeded from state %s" % (uid, ob["state"]), i))
+                ob["state"] = 2
+            elif op == "revoke":
+                code = it.get("code")
+                if code != 2 and ob["state"] != 2:
+                    fails.append(("c04:bad-revoke", "Revoke(code %s) %s succeeded from state %s" % (code, uid, ob["state"]), i))
+                ob["state"] = 4 if code == 2 else 3
+            elif op == "destroy":
+                if ob["state"] == 2:
+                    fails.append(("c04:destroyed-active", "Destroy succeeded on Active object %s (type %s)" % (uid, ob["otype"]), i))
+                shadow.pop(uid, None)
+            need = {"encrypt": (2, 0x4), "decrypt": (2, 0x8), "sign": (4, 0x1), "signatureVerify": (3, 0x2), "mac": (None, 0x80)}
+            if op in need:
+                kind, bit = need[op]
+                bad_mask = (not ob.get("fresh")) and not ((ob["mask"] or 0) & bit)
+                if ob["state"] != 2 or (kind is not None and ob["otype"] != kind) or bad_mask:
+                    fails.append(("c04:crypto-without-guard:%s" % op,
+                                  "%s succeeded with key %s state=%s type=%s mask=%s" % (op, uid, ob["state"], ob["otype"], ob.get("mask")), i))
+            if op == "get" and it.get("wrap") and d.get("wrapped"):
+                kk = shadow.get(it["wrap"].get("enckey"))
+                if kk is None or kk["state"] != 2 or kk["otype"] != 2 or ((not kk.get("fresh")) and not ((kk["mask"] or 0) & 0x10)):
+                    fails.append(("c04:wrap-without-guard", "Get wrapped with key %s: %s"
+                                  % (it["wrap"].get("enckey"), kk and (kk["state"], kk["otype"], kk.get("mask"))), i))
+            if op == "deriveKey":
+                for u in it.get("uids", []):
+                    kk = shadow.get(u)
+                    if kk is None or ((not kk.get("fresh")) and not ((kk["mask"] or 0) & 0x200)):
+                        fails.append(("c04:derive-without-mask", "DeriveKey used %s without the Derive Key bit" % u, i))
+        # the store must agree with the shadow states
+        for u, ob in shadow.items():
+            if u in a and a[u]["state"] != ob["state"]:
+                fails.append(("c04:unexpected-state", "object %s is in state %s, the reported operations imply %s"
+                              % (u, a[u]["state"], ob["state"]), i))
     return fails
 
 
@@ -338,4 +363,135 @@ def mon_c15(h, outs):
                     fails.append(("c15:other-object-changed", "object %s changed though not addressed" % u, i))
             if set(a) != set(b):
                 fails.append(("c15:objects-added-or-removed", "attribute operations added/removed objects", i))
+    return fails
+
+
+# ------------------------------------------------------------------ C14
+_APPLIES = {}
+
+
+def applies_to(name):
+    if not _APPLIES:
+        from kmip.services.server import policy as sp
+        from kmip.core.messages import contents
+        ap = sp.AttributePolicy(contents.ProtocolVersion(2, 0))
+        for n, r in ap._attribute_rule_sets.items():
+            _APPLIES[n] = set(t.value for t in r.applies_to_object_types)
+    return _APPLIES.get(name)
+
+
+LISTED = {"Name", "State", "Object Type", "Cryptographic Algorithm", "Cryptographic Length",
+          "Cryptographic Usage Mask", "Operation Policy Name", "Object Group", "Application Specific Information",
+          "Certificate Type", "Unique Identifier", "Sensitive", "Initial Date"}
+
+
+def spec_match(ob, attrs):
+    """does the stored object match every filter (property text)?  None = outside the oracle's domain"""
+    dates = []
+    for a in attrs:
+        n, v = a["name"], a["value"]
+        if n not in LISTED:
+            return None
+        app = applies_to(n)
+        if app is None or ob["otype"] not in app:
+            return False
+        if n == "Name":
+            if not (v.get("t") == 1 and v["v"] in ob["names"]):
+                return False
+        elif n == "State":
+            if ob["state"] != v["v"]:
+                return False
+        elif n == "Object Type":
+            if ob["otype"] != v["v"]:
+                return False
+        elif n == "Cryptographic Algorithm":
+            if ob["alg"] != v["v"]:
+                return False
+        elif n == "Cryptographic Length":
+            if ob["len"] != v["v"]:
+                return False
+        elif n == "Cryptographic Usage Mask":
+            want = v["v"] & 0xFFFFFF
+            if ob["mask"] is None or (want & ~ob["mask"]):
+                return False
+        elif n == "Operation Policy Name":
+            if ob["policy"] != v["v"]:
+                return False
+        elif n == "Object Group":
+            if v["v"] not in ob["groups"]:
+                return False
+        elif n == "Application Specific Information":
+            if [v["ns"], v["d"]] not in ob["appinfo"]:
+                return False
+        elif n == "Certificate Type":
+            if ob["subtype"] != v["v"]:
+                return False
+        elif n == "Unique Identifier":
+            if str(ob["uid"]) != v["v"]:
+                return False
+        elif n == "Sensitive":
+            if bool(ob["sensitive"]) != bool(v["v"]):
+                return False
+        elif n == "Initial Date":
+            dates.append(v["v"])
+    if len(dates) == 1:
+        return ob["date"] == dates[0]
+    if len(dates) == 2:
+        return min(dates) <= ob["date"] <= max(dates)
+    if len(dates) > 2:
+        return None
+    return True
+
+
+def spec_locate(dump, pol, ident, it):
+    objs = dump.get("objs", [])
+    res = []
+    for ob in objs:
+        # permission as characterised by C03 (`Grant`; with group information only group sections count)
+        if not text_grant(pol, ob["policy"], ident["user"], ident["groups"], ob["owner"], ob["otype"], 8,
+                          preset_fallback=False):
+            continue
+        m = spec_match(ob, it["attrs"])
+        if m is None:
+            return None
+        if m:
+            res.append(ob)
+    res = sorted(res, key=lambda o: -o["date"])      # stable: ties keep identifier order
+    off = it.get("offset") or 0
+    if off < 0 or (it.get("max") is not None and it["max"] < 0):
+        return None
+    res = res[off:]
+    if it.get("max") is not None:
+        res = res[:it["max"]]
+    return [str(o["uid"]) for o in res]
+
+
+def mon_c14(h, outs):
+    fails = []
+    for i, j, o, before, after, pol in iter_requests(h, outs):
+        if pol is None:
+            pol = builtin_policies_json()
+        if "results" not in o or before is None:
+            continue
+        items = j["req"]["items"]
+        if len(items) != 1 or items[0]["op"] != "locate" or j["req"]["version"] < 10:
+            continue
+        it, r = items[0], o["results"][0]
+        # with group information and a policy without group sections the server is stricter than the
+        # property text (observation O-1); the oracle follows the server there
+        exp = spec_locate(before, pol, j["id"], it)
+        if exp is None:
+            continue
+        names = sorted(set(a["name"] for a in it["attrs"]))
+        if r.get("status") != "ok":
+            fails.append(("c14:locate-failed:%s:%s" % (r.get("reason"), ",".join(names)),
+                          "Locate with filters %s failed (reason %s) although the specification yields %s"
+                          % (names, r.get("reason"), exp), i))
+            continue
+        got = (r.get("data") or {}).get("uids")
+        if got != exp:
+            if True:
+                fails.append(("c14:locate-differs-from-spec:%s" % ",".join(names),
+                              "Locate(%s, offset=%s, max=%s) returned %s, specification says %s"
+                              % (it["attrs"], it.get("offset"), it.get("max"), got, exp), i))
     return fails
